@@ -151,6 +151,9 @@ func (r *MetricRegistry) RegisterDistribution(
 	ID string,
 	tags ...string,
 ) core.MetricSampleListener {
+	r.mu.Lock()
+	defer r.mu.Unlock()
+
 	if strings.HasPrefix(ID, ".") {
 		ID = strings.TrimPrefix(ID, ".")
 	}
@@ -178,6 +181,9 @@ func (r *MetricRegistry) RegisterTiming(
 	ID string,
 	tags ...string,
 ) core.MetricSampleListener {
+	r.mu.Lock()
+	defer r.mu.Unlock()
+
 	if strings.HasPrefix(ID, ".") {
 		ID = strings.TrimPrefix(ID, ".")
 	}
@@ -204,6 +210,9 @@ func (r *MetricRegistry) RegisterCount(
 	ID string,
 	tags ...string,
 ) core.MetricSampleListener {
+	r.mu.Lock()
+	defer r.mu.Unlock()
+
 	if strings.HasPrefix(ID, ".") {
 		ID = strings.TrimPrefix(ID, ".")
 	}
